@@ -256,7 +256,7 @@ fn m_response_status() {
     core::mem::forget(r);
 }
 
-// @h props=C18 tier=quick t=300 expect=fail sub=twin
+// @h props=C18 tier=quick t=900 expect=fail sub=twin
 // @fn wtransport-proto/src/session.rs <SessionRequest as TryFrom<Headers>>::try_from
 // @bound twin: claims a complete extended CONNECT request is refused; must be refuted
 #[kani::proof]
@@ -289,7 +289,7 @@ fn admitted_request() -> SessionRequest {
 // @oracle reference parser + role table (RFC 9114 §7.2, WT draft): DATA/HEADERS/GREASE delivered with exact payload; SETTINGS and WT signal => H3_FRAME_UNEXPECTED; invalid id => H3_ID_ERROR; unknown non-GREASE frames skipped whole and the result is that of the remaining bytes; buffered variant identical with the offset rule of C15
 // @assume model map (session request built through the real TryFrom<Headers>)
 #[kani::proof]
-#[kani::unwind(9)]
+#[kani::unwind(14)]
 fn m_session_typestate() {
     use crate::bytes::BufferReader;
     use crate::stream::Stream;
